@@ -90,6 +90,7 @@ def check_entry(P, rep, en, payer_i, dest_i, gas_i, salt_pred, need_auth):
 
 
 def check(P, rep):
+    check_ttl_extensions(P, rep, 'C18.R5', 'interchain_token_service', ['deploy_remote_interchain_token', 'deploy_remote_canonical_token'], 2)
     include_rules(P, rep, 'C18.R7', 'c14', lambda o: 'pay_gas' in (o.get('key') or '') + (o.get('site') or '') + o['what'],
                   'gas service charges exactly the stated gas payment from the payer', 6)
     include_rules(P, rep, 'C18.R7', 'c13', lambda o: True, 'gateway announces exactly the payload it was given', 5)
